@@ -1960,9 +1960,57 @@ func (g *Gen) canPrecede(e, c ssa.Instruction) bool {
 func (g *Gen) keepPrivate(preHeaps map[string]string, st *State, at ssa.Instruction) {
 	// unexported fields of packages whose code the callee cannot reach
 	if call, ok := at.(*ssa.Call); ok {
+		var callees []*ssa.Function
 		if callee := call.Call.StaticCallee(); callee != nil && !call.Call.IsInvoke() {
+			callees = []*ssa.Function{callee}
+		} else if call.Call.IsInvoke() {
+			// interface method call: every implementation the call graph resolves the site to
+			callees = g.prog.calleesAt(g.fn, call)
+			if os.Getenv("GOVC_DEBUG_FRAME") != "" {
+				fmt.Fprintf(os.Stderr, "frame: invoke %s resolves to %d callees %v\n", call.Call.Method.Name(), len(callees), callees)
+			}
+		}
+		if len(callees) > 0 {
+			callee := callees[0]
+			anyReachPkg := func(owner string) bool {
+				for _, c := range callees {
+					if g.prog.mayReachPackage(c, owner) {
+						return true
+					}
+				}
+				return false
+			}
+			anyWriteField := func(k string) bool {
+				for _, c := range callees {
+					if g.prog.mayWriteField(c, k) {
+						return true
+					}
+				}
+				return false
+			}
+			anyWriteElems := func(n string) bool {
+				for _, c := range callees {
+					if g.prog.mayWriteElems(c, n) {
+						return true
+					}
+				}
+				return false
+			}
 			for _, k := range sortedKeys(st.heaps) {
 				cur := st.heaps[k]
+				if strings.HasPrefix(k, "E.S.") {
+					// elements of a slice of structs: kept if the callee cannot reach a writer of that struct type
+					pre, okp := preHeaps[k]
+					if !okp {
+						pre = g.heapInit(k, g.heapSortsM[k])
+					}
+					if cur != pre && !anyWriteElems(strings.TrimPrefix(k, "E.")) {
+						g.addFact("(= " + cur + " " + pre + ")")
+						st.heaps[k] = pre
+						g.trusted["slice elements of a struct type are written only by functions that store a value of that type, store to one of its fields through a pointer or an index, append/copy to a slice of it, or hand a slice of / pointer to it to an interface (sort.Slice, decoders); none through unsafe: such element heaps are kept across calls that cannot reach a writer in the VTA-refined CHA call graph"] = true
+					}
+					continue
+				}
 				if !strings.HasPrefix(k, "S.") {
 					continue
 				}
@@ -1974,10 +2022,10 @@ func (g *Gen) keepPrivate(preHeaps map[string]string, st *State, at ssa.Instruct
 					continue
 				}
 				keep := false
-				if owner, ok := g.fieldOwner[k]; ok && !g.prog.mayReachPackage(callee, owner) {
+				if owner, ok := g.fieldOwner[k]; ok && !anyReachPkg(owner) {
 					keep = true
 				}
-				if !keep && !g.prog.mayWriteField(callee, k) {
+				if !keep && !anyWriteField(k) {
 					keep = true
 				}
 				if os.Getenv("GOVC_DEBUG_FRAME") != "" {
